@@ -636,6 +636,14 @@ def announce_ipv4(
             flush_events = register_flush_callbacks(peers, reactor, sync_mode)
 
             for route in routes:
+                # Validate route before announcing (as `announce route` does)
+                error = validate_announce(route)
+                if error:
+                    peer_list = ', '.join(peers) if peers else 'all peers'
+                    self.log_failure(f'invalid route for {peer_list}: {error}')
+                    await reactor.processes.answer_error(service, error)
+                    return
+
                 reactor.configuration.announce_route(peers, route)
                 peer_list = ', '.join(peers) if peers else 'all peers'
                 self.log_message(f'ipv4 added to {peer_list} : {route.extensive()}')
@@ -718,6 +726,14 @@ def announce_ipv6(
             flush_events = register_flush_callbacks(peers, reactor, sync_mode)
 
             for route in routes:
+                # Validate route before announcing (as `announce route` does)
+                error = validate_announce(route)
+                if error:
+                    peer_list = ', '.join(peers) if peers else 'all peers'
+                    self.log_failure(f'invalid route for {peer_list}: {error}')
+                    await reactor.processes.answer_error(service, error)
+                    return
+
                 reactor.configuration.announce_route(peers, route)
                 peer_list = ', '.join(peers) if peers else 'all peers'
                 self.log_message(f'ipv6 added to {peer_list} : {route.extensive()}')
